@@ -43,6 +43,7 @@ func c12Round3(r *hx.Result, cfg hx.Config) {
 	}
 	defer sel.Close()
 	c12MultiMatch(r, cfg, rng, sel)
+	c12LiteralMatch(r, cfg, rng, sel)
 	c12HooksChans(r, cfg, rng, sel)
 	c12CountInPackage(r, cfg, rng)
 	c12CountBlackBox(r, cfg, rng)
@@ -68,6 +69,20 @@ func modelList(reply string) ([]string, bool) {
 		out = append(out, model.U(h))
 	}
 	return out, true
+}
+
+// reply of scan_multi / search_multi: <count> <n> {hex}
+func modelCountList(reply string) (int, []string, bool) {
+	cs, rest, ok := strings.Cut(reply, " ")
+	if !ok {
+		return 0, nil, false
+	}
+	cnt, err := strconv.Atoi(cs)
+	if err != nil {
+		return 0, nil, false
+	}
+	l, ok := modelList(rest)
+	return cnt, l, ok
 }
 
 func sameList(a, b []string) bool {
@@ -242,11 +257,11 @@ func c12MultiMatch(r *hx.Result, cfg hx.Config, rng *rand.Rand, sel *model.Drive
 				if ok {
 					r.Count(fmt.Sprintf("mm/%d/%s/%q", round, dir, ps), len(want) > 0 && len(want) < len(d.ids))
 					r.Dist(fmt.Sprintf("mm:scan-%d-%s", len(ps), dir))
-					req := append([]string{"scan_multi", model.B(desc), strconv.Itoa(len(ps))}, hexps...)
+					req := append([]string{"scan_multi", model.B(desc), "100000", strconv.Itoa(len(ps))}, hexps...)
 					for _, id := range d.ids {
-						req = append(req, model.H(id))
+						req = append(req, model.H(id), "1")
 					}
-					mod, mok := modelList(sel.Ask(req...))
+					_, mod, mok := modelCountList(sel.Ask(req...))
 					if !mok || !sameList(got, mod) {
 						r.Fail(hx.Failure{Kind: "correspondence", Signature: "multi-match-model-SCAN-" + dir,
 							What: fmt.Sprintf("%s returned %q, Model.GlobSel.scan_multi gives %q", strings.Join(cmd, " "), got, mod),
@@ -284,11 +299,11 @@ func c12MultiMatch(r *hx.Result, cfg hx.Config, rng *rand.Rand, sel *model.Drive
 				if ok {
 					r.Count(fmt.Sprintf("mms/%d/%s/%q", round, dir, ps), len(wantV) > 0 && len(wantV) < len(d.ids))
 					r.Dist(fmt.Sprintf("mm:search-%d-%s", len(ps), dir))
-					req := append([]string{"search_multi", model.B(desc), strconv.Itoa(len(ps))}, hexps...)
+					req := append([]string{"search_multi", model.B(desc), "100000", strconv.Itoa(len(ps))}, hexps...)
 					for _, e := range ve {
-						req = append(req, model.H(e[0]), model.H(e[1]))
+						req = append(req, model.H(e[0]), model.H(e[1]), "1")
 					}
-					mod, mok := modelList(sel.Ask(req...))
+					_, mod, mok := modelCountList(sel.Ask(req...))
 					if !mok || !sameList(got, mod) {
 						r.Fail(hx.Failure{Kind: "correspondence", Signature: "multi-match-model-SEARCH-" + dir,
 							What: fmt.Sprintf("%s returned %q, Model.GlobSel.search_multi gives %q", strings.Join(cmd, " "), got, mod),
@@ -804,5 +819,245 @@ func c12CountBlackBox(r *hx.Result, cfg hx.Config, rng *rand.Rand) {
 			}
 		}
 		r.Sample(20, map[string]interface{}{"count_history": h, "steps": len(trace), "first": trace[0]})
+	}
+}
+
+// ---------------------------------------------------------------------------------------------
+// round 4: a single literal MATCH (no metacharacter) — SEARCH over values that several ids share,
+// SCAN over ids (unique) as the control; with and without WHERE / WHEREIN, ASC / DESC, LIMIT,
+// IDS / COUNT / OBJECTS.  Model: search_multi / scan_multi = the pushObject loop with its early
+// exits as written (c12_search_multi_match_exact); oracle: client-side filter + firstn LIMIT.
+// ---------------------------------------------------------------------------------------------
+
+type litObj struct {
+	id, val string
+	f      int
+	hasF   bool
+}
+
+type litFilter struct {
+	args []string
+	keep func(o litObj) bool
+	text string
+}
+
+func litFilters(rng *rand.Rand, directed bool) []litFilter {
+	fv := func(o litObj) int {
+		if o.hasF {
+			return o.f
+		}
+		return 0 // a missing field reads as 0
+	}
+	rangeF := func(lo, hi int) litFilter {
+		return litFilter{args: []string{"WHERE", "f", fmt.Sprint(lo), fmt.Sprint(hi)}, text: fmt.Sprintf("WHERE f %d %d", lo, hi),
+			keep: func(o litObj) bool { return lo <= fv(o) && fv(o) <= hi }}
+	}
+	inF := func(vals ...int) litFilter {
+		a := []string{"WHEREIN", "f", fmt.Sprint(len(vals))}
+		for _, v := range vals {
+			a = append(a, fmt.Sprint(v))
+		}
+		return litFilter{args: a, text: strings.Join(a, " "), keep: func(o litObj) bool {
+			for _, v := range vals {
+				if fv(o) == v {
+					return true
+				}
+			}
+			return false
+		}}
+	}
+	none := litFilter{text: "", keep: func(litObj) bool { return true }}
+	if directed {
+		return []litFilter{none, rangeF(2, 3), rangeF(3, 9), rangeF(0, 0), inF(2), inF(3, 0), rangeF(7, 9)}
+	}
+	out := []litFilter{none}
+	lo := rng.Intn(4)
+	out = append(out, rangeF(lo, lo+rng.Intn(3)), inF(rng.Intn(5), rng.Intn(5)))
+	return out
+}
+
+func c12LiteralMatch(r *hx.Result, cfg hx.Config, rng *rand.Rand, sel *model.Driver) {
+	rounds := 4
+	if cfg.Tier == "thorough" || cfg.Search {
+		rounds = 40
+	}
+	s, err := srv.Start(filepath.Join(cfg.Work, "c12lit"), "--appendonly", "no")
+	if err != nil {
+		panic(err)
+	}
+	defer s.Kill()
+	c := s.MustDial()
+	defer c.Close()
+	for round := 0; round < rounds; round++ {
+		var objs []litObj
+		var pats []string
+		if round == 0 {
+			objs = []litObj{{"a", "pilot", 1, true}, {"b", "pilot", 2, true}, {"c", "pilot", 3, true}, {"d", "nurse", 2, true},
+				{"e", "pilot2", 1, true}, {"g", "pilo", 0, true}, {"h", "pilot", 0, false}, {"i", "nurse", 3, true}, {"j", "a*b", 2, true}, {"k", "a*b", 3, true}}
+			pats = []string{"pilot", "nurse", "pilo", "pilot2", "absent", "pilot*", "pilo[t]", "a\\*b", "a"}
+		} else {
+			vocab := []string{"x", "x", "y", "xy", "pilot", "pilot", "z", "x]", "-y", "é"}[:3+rng.Intn(8)]
+			n := 6 + rng.Intn(14)
+			for i := 0; i < n; i++ {
+				objs = append(objs, litObj{id: fmt.Sprintf("%c%d", 'a'+rune(rng.Intn(4)), i), val: vocab[rng.Intn(len(vocab))], f: rng.Intn(5), hasF: rng.Intn(5) > 0})
+			}
+			seen := map[string]bool{}
+			for _, o := range objs {
+				if !seen[o.val] {
+					seen[o.val] = true
+					pats = append(pats, o.val)
+				}
+			}
+			pats = append(pats, "absent", objs[0].val+"*")
+		}
+		sort.Slice(objs, func(i, j int) bool { return objs[i].id < objs[j].id })
+		skey, pkey := fmt.Sprintf("lv%d", round), fmt.Sprintf("lp%d", round)
+		for _, o := range objs {
+			set := []string{"SET", skey, o.id}
+			pset := []string{"SET", pkey, o.id}
+			if o.hasF {
+				set = append(set, "FIELD", "f", fmt.Sprint(o.f))
+				pset = append(pset, "FIELD", "f", fmt.Sprint(o.f))
+			}
+			if v := c.MustDo(append(set, "STRING", o.val)...); v.IsErr() {
+				panic("SET failed: " + v.Str)
+			}
+			c.MustDo(append(pset, "POINT", "1", "1")...)
+		}
+		// the value index order
+		ve := append([]litObj{}, objs...)
+		sort.Slice(ve, func(i, j int) bool {
+			if ve[i].val != ve[j].val {
+				return ve[i].val < ve[j].val
+			}
+			return ve[i].id < ve[j].id
+		})
+		dataset := func() string {
+			var sb strings.Builder
+			for i, o := range objs {
+				if i > 0 {
+					sb.WriteByte(' ')
+				}
+				fmt.Fprintf(&sb, "%s=%q", o.id, o.val)
+				if o.hasF {
+					fmt.Fprintf(&sb, "(f=%d)", o.f)
+				}
+			}
+			return sb.String()
+		}()
+		// SCAN control: literal ids
+		idPats := []string{objs[0].id, objs[len(objs)-1].id, "nosuchid"}
+		for _, flt := range litFilters(rng, round == 0) {
+			for _, desc := range []bool{false, true} {
+				dir := "ASC"
+				if desc {
+					dir = "DESC"
+				}
+				for _, limit := range []int{100000, 1, 2} {
+					type job struct {
+						cmdName, key, pat string
+						entries           []litObj
+						text              func(o litObj) string
+						modelFn           string
+					}
+					var jobs []job
+					for _, p := range pats {
+						jobs = append(jobs, job{"SEARCH", skey, p, ve, func(o litObj) string { return o.val }, "search_multi"})
+					}
+					if limit != 2 {
+						for _, p := range idPats {
+							jobs = append(jobs, job{"SCAN", pkey, p, objs, func(o litObj) string { return o.id }, "scan_multi"})
+						}
+					}
+					for _, jb := range jobs {
+						var want []string
+						var wantVals []string
+						sameText := 0
+						for _, o := range jb.entries {
+							m, _ := verifapi.GlobMatch(jb.pat, jb.text(o))
+							if m {
+								sameText++
+							}
+							if m && flt.keep(o) {
+								want = append(want, o.id)
+								wantVals = append(wantVals, o.val)
+							}
+						}
+						if desc {
+							want, wantVals = reverseStrings(want), reverseStrings(wantVals)
+						}
+						total := len(want)
+						if len(want) > limit {
+							want, wantVals = want[:limit], wantVals[:limit]
+						}
+						wantCount := total
+						if wantCount > limit {
+							wantCount = limit
+						}
+						base := append([]string{jb.cmdName, jb.key, "MATCH", jb.pat}, flt.args...)
+						base = append(base, dir, "LIMIT", fmt.Sprint(limit))
+						line := strings.Join(base, " ")
+						cs := map[string]interface{}{"round": round, "query": line, "dataset": dataset}
+						got, ok := idsOf(c.MustDo(append(append([]string{}, base...), "IDS")...))
+						cv := c.MustDo(append(append([]string{}, base...), "COUNT")...)
+						if !ok || cv.Kind != ':' {
+							continue
+						}
+						r.Count(fmt.Sprintf("lit/%d/%s", round, line), sameText >= 2 && total > 0)
+						r.Dist(fmt.Sprintf("lit:%s-shared%d", jb.cmdName, min(sameText, 3)))
+						// model
+						req := []string{jb.modelFn, model.B(desc), fmt.Sprint(limit), "1", model.H(jb.pat)}
+						for _, o := range jb.entries {
+							if jb.cmdName == "SEARCH" {
+								req = append(req, model.H(o.val))
+							}
+							req = append(req, model.H(o.id), model.B(flt.keep(o)))
+						}
+						mcnt, mids, mok := modelCountList(sel.Ask(req...))
+						impl := fmt.Sprintf("IDS=%q COUNT=%d", got, cv.Int)
+						mod := fmt.Sprintf("IDS=%q COUNT=%d", mids, mcnt)
+						if !mok || !sameList(got, mids) || int(cv.Int) != mcnt {
+							r.Fail(hx.Failure{Kind: "correspondence", Signature: "literal-match-model-" + jb.cmdName,
+								What: fmt.Sprintf("%s: server %s, Model.GlobSel.%s %s (dataset: %s)", line, impl, jb.modelFn, mod, dataset),
+								Case: cs, Impl: impl, Model: mod})
+						}
+						if !sameList(got, want) {
+							r.Fail(hx.Failure{Kind: "oracle", Signature: "filter-" + jb.cmdName + "-LITERAL",
+								What: fmt.Sprintf("%s IDS returned %q; the objects whose %s matches %q%s are %q (dataset: %s)", line, got,
+									map[string]string{"SEARCH": "value", "SCAN": "id"}[jb.cmdName], jb.pat, map[bool]string{true: " and pass " + flt.text, false: ""}[flt.text != ""], want, dataset),
+								Case: cs})
+						}
+						if int(cv.Int) != wantCount {
+							r.Fail(hx.Failure{Kind: "oracle", Signature: "count-" + jb.cmdName + "-LITERAL",
+								What: fmt.Sprintf("%s COUNT = %d; %d objects qualify (LIMIT %d) (dataset: %s)", line, cv.Int, total, limit, dataset),
+								Case: cs})
+						}
+						if int(cv.Int) != len(got) {
+							r.Fail(hx.Failure{Kind: "oracle", Signature: "count-vs-ids-" + jb.cmdName + "-LITERAL",
+								What: fmt.Sprintf("%s COUNT = %d but the IDS form returns %d ids %q (dataset: %s)", line, cv.Int, len(got), got, dataset),
+								Case: cs})
+						}
+						if jb.cmdName == "SEARCH" {
+							ov := c.MustDo(append(append([]string{}, base...), "OBJECTS")...)
+							if ov.Kind == '*' && len(ov.Array) == 2 {
+								var oids, ovals []string
+								for _, it := range ov.Array[1].Array {
+									if len(it.Array) >= 2 {
+										oids = append(oids, it.Array[0].Str)
+										ovals = append(ovals, it.Array[1].Str)
+									}
+								}
+								if !sameList(oids, want) || !sameList(ovals, wantVals) {
+									r.Fail(hx.Failure{Kind: "oracle", Signature: "filter-SEARCH-LITERAL-OBJECTS",
+										What: fmt.Sprintf("%s OBJECTS returned ids %q values %q; expected ids %q values %q (dataset: %s)", line, oids, ovals, want, wantVals, dataset),
+										Case: cs})
+								}
+							}
+						}
+					}
+				}
+			}
+		}
+		r.Sample(24, map[string]interface{}{"literal_match_round": round, "objects": len(objs), "patterns": r3qs(pats)})
 	}
 }
